@@ -37,6 +37,13 @@ def run(ctx):
     check_mapper_method_names(ctx)
     check_derivation_rule(ctx)
     check_traversals(ctx)
+    # "the combine/collector mappers fold in the result of every child": a
+    # collector whose combine() grows a set it was handed changes a *child's*
+    # result after the fact (the cached variants and the CSE mix-in keep those
+    # sets), so a later request for that child reports its siblings too
+    from .c09 import DEP, combine_result_is_fresh
+    combine_result_is_fresh(ctx, ctx.model, ctx.model.cls(
+        f"{DEP}:DependencyMapper"))
     if ctx.tier == "thorough":
         check_synthetic_hierarchies(ctx)
 
